@@ -245,9 +245,14 @@ fn(WS + ".app_send", params={"message": "none | msg(headers:short)"}, task="app"
        # the (validated) headers of websocket.http.response.start, then the body chunks, then the end
        ("C11.denial.head", "implies(not old(self.closed) and message is not None and message['type'] == 'websocket.http.response.body' and old(self.state) == ASGIWebsocketState.HANDSHAKE, "
         "n_emitted('sent') >= 1 and isinstance(emitted('sent')[0], Response) and emitted('sent')[0].headers == call_result('build_and_validate_headers') "
-        "and implies(tagis(value_of(old(self), 'response')['status'], 'int'), emitted('sent')[0].status_code == value_of(old(self), 'response')['status']))", "C11"),
+        "and implies(tagis(value_of(old(self), 'response')['status'], 'int'), emitted('sent')[0].status_code == value_of(old(self), 'response')['status']))", "C11,C12"),
        ("C11.denial.end", "implies(not old(self.closed) and message is not None and message['type'] == 'websocket.http.response.body' and old(self.state) in (ASGIWebsocketState.HANDSHAKE, ASGIWebsocketState.RESPONSE), "
         "last_is('sent', EndBody) == (not truthy(message.get('more_body', False))) and (self.state == ASGIWebsocketState.HTTPCLOSED) == (not truthy(message.get('more_body', False))))", "C11"),
+       # C12: the application's extra headers of websocket.accept are validated before they are
+       # merged into the handshake answer (the answer also carries the client's own offers, so the
+       # clause is stated on what the application supplied; the denial response is covered by
+       # C11.denial.head: its headers are the validated list)
+       ("C12.accept.headers-validated", "implies(count_calls('Handshake.accept') == 1, no_ctl_chars(call_args('Handshake.accept')[2]) and no_pseudo_names(call_args('Handshake.accept')[2]))", "C12"),
        ("C10.send.bytes", "implies(n_emitted('ws') == 1 and isinstance(emitted('ws')[0], BytesMessage) and not old(self.closed) and message is not None and message['type'] == 'websocket.send' and tagis(message['bytes'], 'bytes'), "
         "emitted('ws')[0].data == message['bytes'])", "C10"),
        ("C10.send.text", "implies(n_emitted('ws') == 1 and isinstance(emitted('ws')[0], TextMessage) and not old(self.closed) and message is not None and message['type'] == 'websocket.send', "
